@@ -84,11 +84,39 @@ def updClass : Err → String
   | .badRoot => "badRoot"
   | _ => "other"
 
+/-- a pending delayed packet as the Core protocol sees it: rollapp, proof height, sequence, kind -/
+structure Pk where
+  ra : Nat
+  ph : Nat
+  seq : Nat
+  t : String
+  deriving Inhabited, BEq
+
 structure DState where
   st : St
   nActors : Nat
   nRollapps : Nat
+  /-- pending delayed packets (M-Packets' `fork_removes_above_height` composed with M-Core's fork:
+      the fork hooks are told the effective fork height = new revision start − 1) -/
+  pkts : List Pk := []
   deriving Inhabited
+
+def revStart (r : Rollapp) : Nat := match r.revs.getLast? with | some x => x.2 | none => 0
+
+/-- delayedack `OnHardFork` after an M-Core step: for every rollapp that got a new revision, the
+    pending packets with proof height ≥ the new revision's start height are reverted -/
+def prunePkts (before after : St) (pk : List Pk) : List Pk :=
+  pk.filter fun p =>
+    match after.ras.find? (fun r => r.id == p.ra), before.ras.find? (fun r => r.id == p.ra) with
+    | some ra', some ra => !(decide (ra'.revs.length > ra.revs.length) && decide (p.ph ≥ revStart ra'))
+    | _, _ => true
+
+def pkLt (a b : Pk) : Bool :=
+  if a.ra != b.ra then a.ra < b.ra else if a.ph != b.ph then a.ph < b.ph else if a.seq != b.seq then a.seq < b.seq else a.t < b.t
+
+def renderPk (pk : List Pk) : String :=
+  let sorted := pk.foldl (fun acc x => insertSorted pkLt x acc) []
+  joinWith "," (sorted.map fun p => s!"r{p.ra}:{p.ph}:{p.seq}:{p.t}")
 
 /-- actors / rollapps outside the declared ranges are "nobody": map them to ids no object has -/
 def actorOf (d : DState) (s : String) : Nat :=
@@ -147,11 +175,21 @@ def step (d : DState) (f : List String) : DState × String :=
   | "reset" :: _ =>
     let p := paramsOf f
     let d' : DState := { st := init p, nActors := kvN f "actors", nRollapps := kvN f "rollapps" }
-    (d', render d'.st "ok" d'.nActors)
+    (d', render d'.st "ok" d'.nActors ++ " | pk=")
+  | "pkg" :: _ =>
+    -- C18: another package's history ran in a sub-process (its own model is checked by its own check)
+    (d, "ok")
   | "reimport" :: _ =>
     -- C18: genesis export followed by import into a fresh chain; everything continues on the imported state
     let s' := reimport d.st
-    ({ d with st := s' }, render s' "ok" d.nActors)
+    ({ d with st := s' }, render s' "ok" d.nActors ++ " | pk=" ++ renderPk d.pkts)
+  | "packet" :: r :: _ =>
+    let ra := raOf d r
+    if (d.st.ras.find? (fun x => x.id == ra)).isSome then
+      let p : Pk := { ra := ra, ph := kvN f "ph", seq := kvN f "seq", t := kv f "t" }
+      let pk := (d.pkts.filter fun q => !(q == p)) ++ [p]
+      ({ d with pkts := pk }, render d.st "ok" d.nActors ++ " | pk=" ++ renderPk pk)
+    else (d, render d.st "err" d.nActors ++ " | pk=" ++ renderPk d.pkts)
   | _ =>
     match parseOp d f with
     | none => (d, "bad-op")
@@ -161,7 +199,8 @@ def step (d : DState) (f : List String) : DState × String :=
       let res := match e with
         | none => "ok"
         | some err => if isUpd then updClass err else "err"
-      ({ d with st := s' }, render s' res d.nActors)
+      let pk := prunePkts d.st s' d.pkts
+      ({ d with st := s', pkts := pk }, render s' res d.nActors ++ " | pk=" ++ renderPk pk)
 
 def drv : Drv := { σ := DState, init := default, step := step }
 
